@@ -8,7 +8,10 @@
 (*   line 1: {"ev":"config","M":m,"C":c,"W":w}                                  *)
 (*   {"ev":"reset"}                                  fresh engine, clock at 0   *)
 (*   {"ev":"adv","d":d}                              mock clock moved by d s    *)
-(*   {"ev":"begin","id":i,"op":"reqfw","out":..}                                *)
+(*   {"ev":"begin","id":i,"op":"reqfw","g":group,"out":..}                      *)
+(*   {"ev":"begin","id":i,"op":"reqsel","url":u,"out":"status|processor keys"}  *)
+(*   {"ev":"fwbatch","g":group,"n":n,"p":p}   n overlapping requests, p admitted *)
+(*   {"ev":"cqbatch","n":n,"adm":[txn,..]}    n overlapping requests, adm admitted*)
 (*   {"ev":"begin","id":i,"op":"reqcq","txn":t,"out":..}                        *)
 (*   {"ev":"begin","id":i,"op":"endcq","txn":t}                                 *)
 (*   {"ev":"begin","id":i,"op":"metrics","nfw":a,"ncq":b}                       *)
@@ -19,11 +22,11 @@ M == TraceLog[1].M
 C == TraceLog[1].C
 W == TraceLog[1].W
 
-VARIABLES now, fwStart, fw, infl, inv, l, pend, done
+VARIABLES now, fwStart, fw, infl, inv, sel, l, pend, done
 
 S == INSTANCE EngineSeqP
 
-lvars == <<now, fwStart, fw, infl, inv, l, pend, done>>
+lvars == <<now, fwStart, fw, infl, inv, sel, l, pend, done>>
 
 Ev == TraceLog[l + 1]
 Consume(name) == l < TraceLen /\ Ev.ev = name /\ l' = l + 1
@@ -32,7 +35,7 @@ LInit == S!SInit /\ l = 1 /\ pend = {} /\ done = {}
 
 LReset ==
     /\ Consume("reset") /\ pend = {} /\ done = {}
-    /\ now' = 0 /\ fwStart' = -1 /\ fw' = 0 /\ infl' = {} /\ inv' = [fw |-> 0, cq |-> 0]
+    /\ now' = 0 /\ fwStart' = S!Empty /\ fw' = S!Empty /\ infl' = {} /\ inv' = [fw |-> 0, cq |-> 0] /\ sel' = S!Empty
     /\ UNCHANGED <<pend, done>>
 
 \* the driver moved the clock (pending operations may take effect before or after it)
@@ -41,7 +44,7 @@ LAdv == Consume("adv") /\ S!Tick(Ev.d) /\ UNCHANGED <<pend, done>>
 LBegin ==
     /\ Consume("begin")
     /\ pend' = pend \cup {[rec |-> Ev, counted |-> FALSE]}
-    /\ UNCHANGED <<now, fwStart, fw, infl, inv, done>>
+    /\ UNCHANGED <<now, fwStart, fw, infl, inv, sel, done>>
 
 \* internal step 1 of a request: it is counted as an invocation of its flow
 LCount == \E p \in pend :
@@ -52,20 +55,25 @@ LCount == \E p \in pend :
 
 \* the operation takes effect
 LLin == \E p \in pend :
-    /\ CASE p.rec.op = "reqfw"   -> p.counted /\ S!ReqFw(p.rec.out)
+    /\ CASE p.rec.op = "reqfw"   -> p.counted /\ S!ReqFw(p.rec.g, p.rec.out)
          [] p.rec.op = "reqcq"   -> p.counted /\ S!ReqCq(p.rec.txn, p.rec.out)
          [] p.rec.op = "endcq"   -> S!EndCq(p.rec.txn)
          [] p.rec.op = "metrics" -> S!Metrics(p.rec.nfw, p.rec.ncq)
+         [] p.rec.op = "reqsel"  -> S!ReqSel(p.rec.url, p.rec.out)
     /\ pend' = pend \ {p}
     /\ done' = done \cup {p.rec.id}
     /\ UNCHANGED l
 
+\* storms (compact form): n overlapping first requests, only the admitted ones are recorded
+LFwBatch == Consume("fwbatch") /\ pend = {} /\ S!FwBatch(Ev.g, Ev.n, Ev.p) /\ UNCHANGED <<pend, done>>
+LCqBatch == Consume("cqbatch") /\ pend = {} /\ S!CqBatch(Ev.n, {Ev.adm[i] : i \in 1..Len(Ev.adm)}) /\ UNCHANGED <<pend, done>>
+
 LEnd ==
     /\ Consume("end") /\ Ev.id \in done
     /\ done' = done \ {Ev.id}
-    /\ UNCHANGED <<now, fwStart, fw, infl, inv, pend>>
+    /\ UNCHANGED <<now, fwStart, fw, infl, inv, sel, pend>>
 
-LNext == LReset \/ LAdv \/ LBegin \/ LCount \/ LLin \/ LEnd
+LNext == LReset \/ LAdv \/ LFwBatch \/ LCqBatch \/ LBegin \/ LCount \/ LLin \/ LEnd
 
 LinSpec == LInit /\ [][LNext]_lvars
 
